@@ -124,6 +124,7 @@ static struct { const char *name; opfn fn; int forked; } OPS[] = {
     {"SCAN", op_scan, 1},
     {"CHUNKSEQ", op_chunkseq, 1},
     {"WRITE", op_write, 1},
+    {"WRITE3", op_write3, 1},
     {"COPY", op_copy, 1},
     {"MATCH", op_match, 1},
     {"IOSEQ", op_ioseq, 1},
